@@ -419,12 +419,14 @@ PROPS = {
         'assumptions': ['saturation as a property of the action list (pollEmpty / pollClosed never occur)'],
     },
     'C06': {
-        'lean_targets': ['Cqos.Props.C06', 'Cqos.Props.C16', 'Cqos.Facts.GluePrioV2', 'Cqos.Props.C06d', 'Cqos.Props.C06i'],
+        'lean_targets': ['Cqos.Props.C06', 'Cqos.Props.C16', 'Cqos.Facts.GluePrioV2', 'Cqos.Props.C06d', 'Cqos.Props.C06i', 'Cqos.Props.C06e'],
         'facts': True,
         'theorems': ['Cqos.C06.c06_calc_idle', 'Cqos.C06.calc_wait_busy', 'Cqos.C06.w_step', 'Cqos.C06.c06_never_waits_idle',
                      'Cqos.C06.c06_head_served', 'Cqos.C06.c06_recalc_alone', 'Cqos.C06.c06_v1_zero_share_starves',
                      'Cqos.C15.c15_drain_progress', 'Cqos.C16.c16_exit_bound', 'Cqos.Facts.gluePrioV2', 'Cqos.C06.poll_enabled', 'Cqos.C06.c06_no_deadlock',
-                     'Cqos.C06.skip_one', 'Cqos.C06.c06_phase1_delivers', 'Cqos.C06.v2_inputs_own_chan', 'Cqos.C06.c06_idle_delivers'],
+                     'Cqos.C06.skip_one', 'Cqos.C06.c06_phase1_delivers', 'Cqos.C06.v2_inputs_own_chan', 'Cqos.C06.c06_idle_delivers',
+                     'Cqos.C06.noerr_step', 'Cqos.C06.sched_step', 'Cqos.C06.terminal', 'Cqos.C06.c06_deliverable',
+                     'Cqos.C06.sumRule_fair', 'Cqos.C06.sumRule_rate'],
         'runs': [{'cmd': 'stepper', 'args': ['-family', 'single']}, {'cmd': 'stepper', 'args': ['-family', 'mixed']},
                  {'cmd': 'stepper', 'args': ['-family', 'terminate']},
                  {'cmd': 'blackbox', 'args': ['-scenario', 'alone']}],
@@ -438,10 +440,14 @@ PROPS = {
                        'enabled or it waits for a release while a handler still holds an item (c06_no_deadlock); run-composed progress '
                        '(c06_idle_delivers): in every reachable v2 state about to compute a round with nothing in flight, the head item of '
                        'every undrained input with data is delivered by calcTactic and at most H+n poll actions of the discipline alone, '
-                       'with no release and no other environment action. The '
+                       'with no release and no other environment action; no reachable state is doomed (c06_deliverable): after ANY run of a v2 '
+                       'discipline with a divider obeying the sum rule (Fair and Rate do: sumRule_fair, sumRule_rate), an item waiting at the '
+                       'head of a registered undrained input is delivered by some continuation made only of handlers releasing what they hold '
+                       'and of the discipline\'s own steps (scheduler + lexicographic measure: queued items, occupied handlers, position in the round). The '
                        'stepper reports blocked-with-nothing-in-flight and single-active-priority under-occupation exactly (no timing)'),
-        'level_note': ('partial: c06_idle_delivers shows the delivery is reachable by the discipline\'s own steps alone (no release needed); that the '
-                       'steps are actually taken needs fairness of the Go scheduler and a handler receiving from the output, which is not modelled; v1 accepts zero-share configurations and starves them - known finding F1'),
+        'level_note': ('partial: c06_deliverable / c06_idle_delivers show that delivery stays reachable from every reachable state by releases and the '
+                       'discipline\'s own steps alone; that these steps are actually taken needs fairness of the Go scheduler and handlers that '
+                       'release, which is not modelled (the theorem is the angelic half of the eventuality); v1 accepts zero-share configurations and starves them - known finding F1'),
         'rule': 'stepper families single (one active priority), mixed, terminate; monitors: waits-with-nothing-in-flight, alone-not-granted-all',
         'trusted_base': [],
         'assumptions': ['handlers eventually release; Go schedules the discipline goroutine'],
